@@ -5,3 +5,4 @@ import Props.C01
 #print axioms C01.never_to_as_in_path
 #print axioms C01.no_nonclient_to_nonclient
 #print axioms C01.withdraw_iff_exportable
+#print axioms C01.C01_quiescent
